@@ -320,7 +320,10 @@ func (g gen) mechanisms() catalogue {
 	}
 
 	if g.maybe("eh.redirect") {
-		add("error_handlers", "to_login", "redirect", map[string]any{"to": "https://login.example.com?origin={{ .Request.URL | urlenc }}", "code": g.pick("redir.code", 301, 302)})
+		add("error_handlers", "to_login", "redirect", map[string]any{
+			// (the target is a template; it may as well be relative to the protected service)
+			"to":   g.pick("redir.to", "https://login.example.com?origin={{ .Request.URL | urlenc }}", "/login?origin={{ .Request.URL | urlenc }}", "/dashboard", "login"),
+			"code": g.pick("redir.code", 301, 302)})
 	}
 
 	if g.maybe("eh.www") {
